@@ -28,7 +28,7 @@ RULE = ('seeded hit-time sequences (bursts, exact period boundaries, window edge
 ASSUMPTIONS = ['time is the agent\'s own reading of time.time_ns (virtual clock)',
                'under concurrency only the upper bounds are asserted (count <= fire_count, spacing >= period); '
                'must-collect is asserted single-threaded']
-REQUIRE = {'true_hits_while_a_false_condition_was_being_evaluated': 3, 'hits_checked': 5000, 'refused_by_count': 200, 'refused_by_period': 200, 'refused_by_window': 100,
+REQUIRE = {'stress_hits_on_an_unlimited_tracepoint': 1000, 'true_hits_while_a_false_condition_was_being_evaluated': 3, 'hits_checked': 5000, 'refused_by_count': 200, 'refused_by_period': 200, 'refused_by_window': 100,
            'boundary_hits': 50, 'gated_cases': 30, 'hostile_schedules': 30,
            'overlap_cases': 30, 'hits_while_collection_open': 30, 'interpose_points': 15,
            'overlap_cases_with_condition': 8, 'sequential_probe_hits': 60,
@@ -407,7 +407,7 @@ def case_stress(seed, out, spec, wd):
     r = Rng('c04s', seed)
     plugins.reset()
     n = r.pick([4, 8])
-    fc = r.pick([1, 2, 5])
+    fc = r.pick([1, 2, 5, -1, -1])   # (-1 with fire_period 0: every one of the hits is due, whatever the threads do)
     per_thread = 150
     path, mod, line = setup_host(wd, 's')
     import os
@@ -442,7 +442,13 @@ def case_stress(seed, out, spec, wd):
     if hung:
         out.inconc('C04 stress threads did not finish')
         return
-    if collected > fc:
+    if fc == -1:
+        out.count('stress_hits_on_an_unlimited_tracepoint', n * per_thread)
+        if collected != n * per_thread:
+            out.violation('ratelimit:due-hit-not-collected', 'free-running: %d threads hit an unlimited tracepoint '
+                          '(fire_count=-1, fire_period=0) %d times, %d hits collected' % (n, n * per_thread, collected),
+                          witness, replay_spec(spec, seed))
+    elif collected > fc:
         out.violation('ratelimit:concurrent-count-exceeded', 'free-running: %d collections for fire_count=%d' % (
             collected, fc), witness, replay_spec(spec, seed))
     out.count('stress_hits', n * per_thread)
